@@ -11,7 +11,11 @@ Own case language (coq/theories/Run/RunC10.v), compared exactly and present also
   (10 8 . c11-case)     Matrix mutation histories in C11's language (every slice kind, panicking steps,
                         the same matrix re-read through the unchecked paths after every step)
   (10 9 term)           TensorStack / TensorChain constructors, every arity and position of a mismatching
-                        source; a constructor that returns has its whole view walked"""
+                        source; a constructor that returns has its whole view walked
+  (10 9 (3 inner ((name index))))     wave 2: TensorIndex::from(inner, [(name, index)]) resp.
+  (10 9 (4 inner ((position name))))  TensorExpansion::from(inner, [(position, name)]) over a chain / stack
+                        term `inner` (nested views: the outer adaptor's index map feeds the chain / stack
+                        split), valid and invalid arguments, matching and mismatching inner sources"""
 import importlib, random
 from tools import vlib
 
@@ -266,6 +270,68 @@ def view_walks(tier, rng):
                             yield sx([10, 9, [9, leaves((p, m)), pos, 9, kind]])
 
 
+def nested_walks(tier, rng):
+    """wave 2: one TensorIndex / TensorExpansion over a TensorChain / TensorStack (every array arity
+    1..3 and tuple arity 2..3): every dimension selected at its first / last / one-past-the-end index
+    (the latter must panic), every index along the chained dimension (crossing every source
+    boundary), unknown names, every insert position 0..D+1 with a fresh and a clashing name; inner
+    sources matching, and one mismatching variant (the inner constructor's panic must surface)."""
+    from tools.vlib import sx
+    base_lens = [2, 3, 2]
+
+    def outers(shape):
+        D = len(shape)
+        for (nm, ln) in shape:
+            for i in sorted({0, ln - 1, ln}):
+                yield lambda inner, nm=nm, i=i: [3, inner, [[nm, i]]]
+        yield lambda inner: [3, inner, [[8, 0]]]                      # unknown dimension
+        for pos in range(D + 2):
+            yield lambda inner, pos=pos: [4, inner, [[pos, 9]]]
+        if D > 0:
+            yield lambda inner: [4, inner, [[0, shape[0][0]]]]        # name already in use
+
+    for D in (1, 2, 3):
+        names = list(range(D))
+        for kind, arities in ((0, (1, 2, 3)), (1, (2, 3))):
+            for n in arities:
+                for along in range(D):
+                    lvs, total = [], 0
+                    for i in range(n):
+                        ln = list(base_lens[:D])
+                        ln[along] = 1 + (i % 3)
+                        total += ln[along]
+                        lvs.append([0, i + 1, [[a, b] for a, b in zip(names, ln)]])
+                    shape = [(a, (total if a == names[along] else b)) for a, b in zip(names, base_lens[:D])]
+                    inner = [10, lvs, names[along], kind]
+                    for o in outers(shape):
+                        yield sx([10, 9, o(inner)])
+                    for i in range(total + 1):                         # every chained index
+                        yield sx([10, 9, [3, inner, [[names[along], i]]]])
+                    bad = [[t, i, [list(d) for d in sh]] for t, i, sh in lvs]
+                    bad[-1][2][(along + 1) % D][1 if D > 1 else 0] += (1 if D > 1 else 0)
+                    if D > 1:
+                        yield sx([10, 9, [3, [10, bad, names[along], kind], [[names[along], 0]]]])
+                        yield sx([10, 9, [4, [10, bad, names[along], kind], [[0, 9]]]])
+    for D in (0, 1, 2, 3):
+        names = list(range(D))
+        for kind, arities in ((0, (1, 2, 3)), (1, (2, 3))):
+            for n in arities:
+                for pos in range(D + 1):
+                    lvs = [[0, i + 1, [[a, b] for a, b in zip(names, base_lens[:D])]] for i in range(n)]
+                    sh = [(a, b) for a, b in zip(names, base_lens[:D])]
+                    shape = sh[:pos] + [(7, n)] + sh[pos:]
+                    inner = [9, lvs, pos, 7, kind]
+                    for o in outers(shape):
+                        yield sx([10, 9, o(inner)])
+                    for i in range(n + 1):                             # every stacked source
+                        yield sx([10, 9, [3, inner, [[7, i]]]])
+                    if D > 0:
+                        bad = [[t, i, [list(d) for d in s2]] for t, i, s2 in lvs]
+                        bad[-1][2][0][1] += 1
+                        yield sx([10, 9, [3, [9, bad, pos, 7, kind], [[7, 0]]]])
+                        yield sx([10, 9, [4, [9, bad, pos, 7, kind], [[0, 9]]]])
+
+
 def gen(tier, rng):
     for c in own_cases(tier, rng):
         yield c
@@ -289,6 +355,9 @@ def gen(tier, rng):
             cases = sub.sample(cases, per)
         for c in cases:
             yield c
+    # wave 2 (kept LAST so that the random stream of everything above is unchanged)
+    for c in dict.fromkeys(nested_walks(tier, rng)):
+        yield c
 
 
 def nontrivial(case, out):
